@@ -189,13 +189,20 @@ func c04InitialVerify(c *Ctx, k *core) {
 	}
 	// the failing branch: from `if verr != nil` true edge no go / success return
 	var failIf *ssa.If
-	for _, r := range *vi.Referrers() {
-		if b, ok := r.(*ssa.BinOp); ok {
-			if nv, nilWhenTrue, ok := nilCheckOf(b); ok && nv == ssa.Value(vi) {
-				for _, rr := range *b.Referrers() {
-					if iff, ok := rr.(*ssa.If); ok {
-						failIf = iff
-						_ = nilWhenTrue
+	// (the result may be tested behind the join of a folded "verify if it can be verified" helper, whose other edges
+	// carry nil: that join is non-nil exactly when Verify's result is)
+	for _, tested := range []ssa.Value{ssa.Value(vi), errCarrier(vi)} {
+		if tested.Referrers() == nil {
+			continue
+		}
+		for _, r := range *tested.Referrers() {
+			if b, ok := r.(*ssa.BinOp); ok {
+				if nv, nilWhenTrue, ok := nilCheckOf(b); ok && nv == tested {
+					for _, rr := range *b.Referrers() {
+						if iff, ok := rr.(*ssa.If); ok {
+							failIf = iff
+							_ = nilWhenTrue
+						}
 					}
 				}
 			}
@@ -228,7 +235,7 @@ func c04InitialVerify(c *Ctx, k *core) {
 			for _, r := range returnsOf(f) {
 				if failSucc.Dominates(r.Block()) || failSucc == r.Block() {
 					isV := func(v ssa.Value) bool { return v == ssa.Value(vi) }
-					if !errDerives(retVals(r)[1], isV) {
+					if !errDerivesNonNil(retVals(r)[1], r.Block(), isV) {
 						okErr = false
 					}
 				}
